@@ -172,6 +172,36 @@ def gen_A(key, op):
             p2["chunks"] = scn["chunks"]
             if op == "zonal_mean":
                 scn["params"]["name"] = p2["params"]["name"] = "zm"
+        if rng.random() < 0.35:
+            # focus (s45): the SAME lazy cube feeds both results; they differ in parameters and/or in
+            # the content of the secondary rasters only -- what a task name / cache key that covers
+            # the data but not every other argument would confuse
+            p2 = json.loads(json.dumps({k: v for k, v in scn.items() if k not in ("pair", "pipe")}))
+            p2["share_cube"] = True
+            mode = rng.random()
+            if op == "zonal_mean" and mode < 0.3:
+                mode = 0.9  # every kernel argument, not only the arrays, is part of a task's identity
+            if mode < 0.5 and p2.get("secondary"):
+                # same parameters, every secondary raster shuffled (same value set, dtype, shape)
+                for name in sorted(p2["secondary"]):
+                    a = S.j2arr(p2["secondary"][name])
+                    flat = a.reshape(-1).copy()
+                    prm = list(range(flat.size))
+                    rng.shuffle(prm)
+                    p2["secondary"][name] = S.arr2j(flat[prm].reshape(a.shape))
+            elif mode < 0.85:
+                c = S.gen_scenario(rng, force={"op": op, "shape": (T, Y, X), "dtype": scn["cube"]["dtype"], "layout": scn["layout"], "like": like, "no_cube": True})
+                for k in ("params", "secondary", "secondary_backing"):
+                    p2[k] = c[k]
+                if "secondary_order" in c:
+                    p2["secondary_order"] = c["secondary_order"]
+            elif mode < 0.93 and op == "zonal_mean":
+                # same cube, same zones raster, only the zones' nodata marker differs (a zone id is
+                # declared "no zone"): every argument of the kernel must be part of the task identity
+                p2["params"]["znodata"] = rng.randrange(p2["params"]["nz"])
+            # else: the very same call twice (dask merges the keys -- legitimately; both must be right)
+            if op == "zonal_mean" and rng.random() < 0.7:
+                scn["params"]["name"] = p2["params"]["name"] = "zm"
         scn["pair"] = p2
     elif r < 0.70 and op != "dekad" and runner.relaxed(scn) in (None, "core-dim-chunked"):
         # O11: the lazy cube has an upstream history and/or the result feeds a downstream consumer
